@@ -14,6 +14,7 @@ structure AState where
   st : St := init
   abs : Rv.Spec.Session.Abs := Rv.Spec.Session.Abs.init
   issued : Nat := 0           -- number of cookies the harness has received (s0, s1, …)
+  pws : List (Nat × String) := [(1, "pw-alice"), (2, "pw-bob")]   -- the password whose stored hash verifies, per user
 
 def nat (x : String) : Nat := x.toNat?.getD 0
 
@@ -44,7 +45,10 @@ def userId (u : String) : Nat := if u.toLower = "alice" then 1 else if u.toLower
 def userExists (u : String) : Bool := u.toLower = "alice" || u.toLower = "bob"
 /-- user names are compared case-insensitively (the users table declares `username … COLLATE NOCASE`);
     the password is what it is, byte for byte. -/
-def pwOk (u p : String) : Bool := (u.toLower = "alice" && p = "pw-alice") || (u.toLower = "bob" && p = "pw-bob")
+def pwOkIn (pws : List (Nat × String)) (u p : String) : Bool :=
+  match pws.find? (·.1 = userId u) with
+  | some x => userExists u && x.2 = p
+  | none => false
 
 def outName : Outcome → String
   | .unauthorized => "401" | .forbidden => "403" | .reached _ => "reached"
@@ -57,6 +61,7 @@ partial def step (as : AState) (fs : List String) (obs : String) : AState × Str
     let th := (between (obs ++ ";") "threshold=" ";").toInt?.getD 600000
     ({ cfg := { lifetime := lt, threshold := th } }, obs, if lt > 0 && th ≥ 0 then "ok" else "bad:session-constants")
   | ["au", "login", u, p, ref] =>
+    let pwOk := pwOkIn as.pws
     let ck := cookie as ref
     let op := Op.login ck (userExists u) (pwOk u p) (userId u)
     let r := login as.cfg as.st ck (userExists u) (pwOk u p) (userId u)
@@ -69,6 +74,24 @@ partial def step (as : AState) (fs : List String) (obs : String) : AState × Str
     let v := if obs.startsWith "created" && !(userExists u && pwOk u p) then "bad:session-without-valid-credentials"
       else if obs.startsWith "panic" then "bad:panic" else "ok"
     ({ as with st := r.1, abs := abs', issued := issued' }, m ++ tail r.1, v)
+  | ["au", "chpw", ref, cur, new] =>
+    -- PATCH /api/auth/change-password: a guarded route; the password of the SESSION's user changes iff `cur` is the
+    -- password whose stored hash verifies (and neither field is empty)
+    let ck := cookie as ref
+    let liveBefore := match ck with | some sid => as.abs.live sid | none => false
+    let r := request as.cfg as.st true "PATCH" "" "" ck
+    let abs' := Rv.Spec.Session.Abs.step as.cfg as.abs (.request true "PATCH" "" "" ck)
+    let user : Nat := match ck with
+      | some sid => (match find as.st sid with | some s => s.user | none => 0)
+      | none => 0
+    let reached := match r.2 with | .reached _ => true | _ => false
+    let curOk := reached && cur ≠ "" && new ≠ "" && (as.pws.find? (·.1 = user)).map (·.2) = some cur
+    let pws' := if curOk then as.pws.map (fun x => if x.1 = user then (x.1, new) else x) else as.pws
+    let m := if !reached then outName r.2 else if curOk then "changed" else "refused"
+    let v := if obs.startsWith "changed" && !curOk then "bad:password-changed-without-the-current-password"
+      else if obs.startsWith "changed" && !liveBefore then "bad:guarded-route-served-without-live-session"
+      else if obs.startsWith "panic" then "bad:panic" else "ok"
+    ({ as with st := r.1, abs := abs', pws := pws' }, m ++ tail r.1, v)
   | ["au", "logout", ref] =>
     let ck := cookie as ref
     let liveBefore := match ck with | some sid => as.abs.live sid | none => false
